@@ -280,11 +280,10 @@ def units(tier, seed):
                     add('storage', t, 2, False, inside, 300)
                 add('uses', t, 1, False, inside, 300)
             else:
-                for nbefore in (0, 1, 2):
+                for nbefore in (1, 2):
                     for after in (False, True):
-                        add('storage', t, nbefore, after, inside, 3000)
-                add('uses', t, 1, False, inside, 1500)
-                add('uses', t, 1, True, inside, 3000)
+                        add('storage', t, nbefore, after, inside, 1200)
+                add('uses', t, 1, False, inside, 900)
     us.append(dict(id='d.simultaneous-uses', template='-', family='d', fixed={}, ob='C13.d', timeout=200, weight=20,
                    bounds='one non-ground fact p(f(_), _); an enumeration and a retract/query solution held open together, 3 orders'))
     return us
